@@ -1,7 +1,7 @@
 """Component round trip: variant→encoder-method tables and section tag↔vector pairing."""
 import re
 
-from vlib.facts import walk, peel, place_path, pat_alternatives, CheckError
+from vlib.facts import walk, peel, place_path, pat_alternatives, pat_variants, CheckError
 from vlib.report import RuleResult
 
 CS = "ir::section::ComponentSection"
@@ -315,7 +315,14 @@ def _cursor_advance(fn, arm, cursor_hids, num_hids):
                     return x, "the cursor is stepped by one outside the item loop (once per section instead of once per item)"
                 outer = [m for m in loops if id(x) in {id(y) for y in walk(m["arms"][0]["body"])}][0]
                 lp = [y for y in walk(outer["arms"][0]["body"]) if y.get("k") == "Loop"][0]
-                if not every_iteration(lp["body"], x):
+                per_item = None
+                for mm in walk(lp["body"]):
+                    if mm.get("k") == "Match" and mm is not outer:
+                        for a2 in mm["arms"]:
+                            if a2["pat"].get("variant") == "Some":
+                                per_item = a2["body"]
+                        break
+                if per_item is not None and any(y is x for y in walk(per_item)) and not every_iteration(per_item, x)[0]:
                     return x, "the per-item step of the cursor is skipped on some iterations"
             elif is_num(rhs):
                 if inside:
@@ -567,6 +574,34 @@ def name_section_guard(F):
                     for st in walk(fn["body"]):
                         if st.get("k") == "Let" and st["pat"].get("hid") == x["res"]["hid"] and "init" in st:
                             stack_.append(st["init"])
+    # parse side: every kind of component-name subsection is collected into a map of its own (two kinds sharing one map are
+    # merged: one kind's names leak into the other's subsection and its own subsection vanishes)
+    pc = F.one_fn(name="parse_comp", self_adt="Component")
+    r.analysed.append(pc["path"])
+    for m_ in walk(pc["body"]):
+        if not (m_.get("k") == "Match" and (m_.get("scrut_ty") or "").replace("&", "").split("<")[0] == "wasmparser::ComponentName"):
+            continue
+        tgt = {}
+        for arm in m_["arms"]:
+            vs_ = [v for a, v in pat_variants(arm["pat"])[0] if a == "wasmparser::ComponentName"]
+            dst = set()
+            for x in walk(arm["body"]):
+                if x.get("k") == "AddrOf" and x.get("mut") and peel(x["a"]).get("k") == "Path" and peel(x["a"]).get("res", {}).get("r") == "local":
+                    dst.add(peel(x["a"])["res"].get("name"))
+                if x.get("k") == "Assign" and peel(x["lhs"]).get("k") == "Path" and peel(x["lhs"]).get("res", {}).get("r") == "local":
+                    dst.add(peel(x["lhs"])["res"].get("name"))
+            for v in vs_:
+                if len(dst) == 1:
+                    tgt[v] = next(iter(dst))
+        by_dst = {}
+        for v, d in tgt.items():
+            by_dst.setdefault(d, []).append(v)
+        clash = {d: sorted(vs) for d, vs in by_dst.items() if len(vs) > 1}
+        r.ob(not clash, {"component name kinds collected": len(tgt), "kinds sharing one map": clash})
+        if clash:
+            d0 = sorted(clash)[0]
+            r.violate("%s | name kinds %s share %s" % (pc["path"], "+".join(clash[d0]), d0), F.loc(pc, m_),
+                      "component-name subsections %s are both collected into `%s`: the names of one kind are re-emitted under the other and its own subsection is lost" % (clash[d0], d0))
     # only guards that talk about names at all are judged (an enclosing `match section_kind` is not a names guard)
     guards_names = bool(mentioned & appended)
     missing = sorted(appended - mentioned) if guards_names else []
